@@ -119,7 +119,7 @@ def bounds(tier):
             'weight_channel_maxima': W_MAX[tier], 'pact_clip_values': CLIPS[tier],
             'bias_s_a': _sa_grid(tier), 'bias_s_w': _sw_grid(tier), 'bias_levels_each_side': 48 if tier == 'quick' else 260,
             'channel_shapes': ['mixed', 'pos', 'neg', 'const+', 'const-', 'zero', 'single'],
-            'tensor_shapes': ['2d', '4d', 'single-element'], 'modes': ['eval', 'train'], 'dequantize': [False, True],
+            'tensor_shapes': ['2d', '4d', 'single-element (C,1)', 'single-element 1-D (C,)'], 'modes': ['eval', 'train'], 'dequantize': [False, True],
             'input_magnitudes': 'zero or [2^-30, 2^13]'}
 
 
@@ -441,15 +441,17 @@ def _run_weight(acc, case):
     # through the public `precision` setter.  The clauses are about the call at hand, whatever the instance saw before.
     HISTS = ['fresh', 'seen-smaller/train', 'seen-smaller/eval', 'seen-larger/eval', 'precision-set']
     for train in (False, True):
-        for shp, hist in [(sh, 'fresh') for sh in ('2d', '4d', 'single')] + [('2d', h) for h in HISTS[1:]]:
+        # 'single1d': the same single-element channels handed over as a 1-D tensor of shape (C,) (e.g. a per-channel scale or a
+        # depthwise 1x1 weight squeezed by the caller): still one channel per element
+        for shp, hist in [(sh, 'fresh') for sh in ('2d', '4d', 'single', 'single1d')] + [('2d', h) for h in HISTS[1:]]:
             variant = f'{"train" if train else "eval"}/{shp}' + ('' if hist == 'fresh' else '/' + hist)
             if not acc.want_variant(variant):
                 continue
-            if shp == 'single':
+            if shp in ('single', 'single1d'):
                 Xin, chans, vmask, lvf = X1, ['single'] * len(x), torch.ones_like(X1, dtype=torch.bool), lv_single
             else:
                 Xin, chans, vmask, lvf = X, W_CHANS, valid, lv_main
-            shape = Xin.shape if shp != '4d' else (C, N4 // 4, 2, 2)
+            shape = (C, N4 // 4, 2, 2) if shp == '4d' else (Xin.shape[0],) if shp == 'single1d' else Xin.shape
             cout = Xin.shape[0]
             outs = []
             for dq in (False, True):
